@@ -124,14 +124,14 @@ def cfg_C04(tier, rng):
 
 
 def cfg_C05(tier, rng):
-    k = 4 if tier == QUICK else 24
+    k = 4 if tier == QUICK else 12
     charts = gc.family_f3(rng, k, nmin=3, nmax=5, tmin=3, tmax=6, nev=2, max_oracle=2)
     # several regions react to one event (several event-triggered micro steps in a macro step)
-    charts += [c for c in gc.family_fanout(rng, 12) if c['n'] <= 10][:2 if tier == QUICK else 8]
+    charts += [c for c in gc.family_fanout(rng, 12) if c['n'] <= 10][:2 if tier == QUICK else 4]
     return [dict(name='queues', charts=charts,
-                 consts=dict(MaxQ=2 if tier == QUICK else 3, MaxClk=2 if tier == QUICK else 3,
+                 consts=dict(MaxQ=2, MaxClk=2 if tier == QUICK else 3,
                              Delays={0, 1, 2}, Advances={1, 2}, Params={0},
-                             MaxLevel=6 if tier == QUICK else 7),
+                             MaxLevel=6),
                  variants=[dict(variant='api', shadow=True), dict(variant='api', epoch=EPOCH)],
                  jobs_for=(lambda ci, h, r: [[dict(variant='api', shadow=True), dict(variant='api', epoch=EPOCH)][(ci + len(h)) % 2]])
                  if tier == QUICK else None,
